@@ -312,7 +312,7 @@ def write_ndjson(path, events):
             f.write("\n")
 
 
-def judge(module, events, *, cfg=None, chunk=20000, jobs=8, timeout=1200, env=None, heap="3g"):
+def judge(module, events, *, cfg=None, chunk=20000, jobs=8, timeout=1200, env=None, heap="2g"):
     """Feed `events` (list of dicts) to judge module `module` in chunks.  The judge module must
     read IOEnv.VERIF_EVENTS (ndjson) and JsonSerialize to IOEnv.VERIF_OUT a record
     [bad |-> <<[i |-> n, c |-> clause, d |-> detail]...>>, n |-> number judged, ante |-> [clause |-> count]].
